@@ -1,9 +1,31 @@
 #!/bin/sh
-# Builds the framework from files on disk only (offline): hand-written Coq layers (full .vo build),
-# the correspondence/translator harness (against /repo's working tree, hooks on).
-set -e
+# Builds the framework from files on disk only (offline): hand-written Coq libraries (full .vo
+# builds) and the correspondence/translator harness (against /repo's working tree, hooks on).
+# Best effort per component: every check rebuilds what it needs itself (vlib.coq_make / cargo_build),
+# so a component that cannot be pre-built here (e.g. a Coq library that imports a generated library
+# which only exists after its translator ran) is reported and skipped, not fatal.
 cd "$(dirname "$0")"
 export CARGO_NET_OFFLINE=true
-python3 -c "import sys; sys.path.insert(0, 'lib'); import vlib; c = vlib.Ctx('setup', 'quick', 1); sys.exit(0 if all(vlib.coq_make(c, d)[0] for d in vlib.coq_dirs()) else 1)"
-( cd harness && timeout 7200 cargo build --offline --workspace )
+python3 - <<'PY'
+import os, sys
+sys.path.insert(0, 'lib')
+import vlib
+c = vlib.Ctx('setup', 'quick', 1)
+bad = []
+for d in vlib.coq_dirs():
+    missing = [x for x in vlib._dep_order(d) if not os.path.isdir(os.path.join(vlib.COQ, x))]
+    if missing:
+        c.log("skip coq/%s for now: imports %s (generated at check time)" % (d, missing))
+        continue
+    try:
+        ok, _ = vlib.coq_make(c, d)
+    except Exception as ex:
+        ok = False
+        c.log("coq/%s: %r" % (d, ex))
+    if not ok:
+        bad.append(d)
+print("coq libraries that did not pre-build:", bad)
+PY
+( cd harness && timeout 7200 cargo build --offline --workspace ) || echo "WARNING: harness workspace did not pre-build; checks will build their own packages"
 echo "setup done"
+exit 0
